@@ -24,11 +24,12 @@
  *                                   d<code> <rational> = dparam, e.g. d11 ER_SPACE_MUL, d8 UC_SPACE_MUL, d16 DENSE_FRACT)
  *   FCOL <k> <cnt> (<row> <val>)*   set column k of the matrix (sparse)
  *   FACTOR                          mpq_ILLfactor on the current columns
- *   FTRAN <cnt> (<idx> <val>)*      -> FTRAN x_0 .. x_{n-1}
- *   BTRAN <cnt> (<idx> <val>)*      -> BTRAN y_0 .. y_{n-1}
+ *   FTRAN <cnt> (<idx> <val>)*      -> FTRAN x_0 .. x_{n-1} ; XORD <cnt> <idx>*  (the indices of the result in the order listed)
+ *   BTRAN <cnt> (<idx> <val>)*      -> BTRAN y_0 .. y_{n-1} ; XORD ...
  *   FUPD <col> <cnt> (<row> <val>)* ftran_update with the new column (-> FUPDX x, FUPDS spike as listed), then ILLfactor_update replacing basis position col;
  *                                   on failure / refactor request: fresh factorization (REFACTOR), undone if singular (REVERT)
- *   FDUMP                           representation dump of the factor_work
+ *   FDUMP                           representation dump of the factor_work (header field dense_base: -1 <=> dense_factor did not run);
+ *                                   after a factorization that reported nsing > 0: "FDUMP sing n stage s nstages t dense_base d", RPERM, CPERM
  *   FFREE
  */
 #include "common.h"
@@ -109,6 +110,7 @@ static int *Fbasis = NULL, *Fcbeg = NULL, *Fclen = NULL, *Fcind = NULL;
 static mpq_t *Fcoef = NULL;
 static int Fcap = 0;		/* per column capacity = FN */
 static int Fvalid = 0;		/* the last factorization succeeded and was non-singular */
+static int Fsing = 0;		/* the last factorization returned 0 and reported nsing > 0 (permutations / stage still readable) */
 
 static void f_free (void)
 {
@@ -165,16 +167,19 @@ static void parse_svec (int t, mpq_svector * v, int n)
 static int f_factor (void)
 {
 	int rv, nsing = 0, *singr = 0, *singc = 0, i;
-	Fvalid = 0;
+	Fvalid = 0; Fsing = 0;
 	if (F->rperm) mpq_ILLfactor_free_factor_work (F);
 	rv = mpq_ILLfactor_create_factor_work (F, FN);
 	if (rv) { printf (" %d create", rv); return 1; }
+	/* dense_base is written by dense_build_matrix only: -1 afterwards <=> dense_factor did not run */
+	F->dense_base = -1; F->drows = 0; F->dcols = 0;
 	rv = mpq_ILLfactor (F, Fbasis, Fcbeg, Fclen, Fcind, Fcoef, &nsing, &singr, &singc);
 	printf (" %d %d", rv, nsing);
 	for (i = 0; i < nsing; i++) printf (" %d %d", singr[i], singc[i]);
 	if (singr) mpq_QSfree (singr);
 	if (singc) mpq_QSfree (singc);
 	Fvalid = (rv == 0 && nsing == 0);
+	Fsing = (rv == 0 && nsing > 0);
 	return rv != 0 || nsing > 0;
 }
 
@@ -199,6 +204,15 @@ static void f_dump (void)
 {
 	int i, k, n = FN;
 	mpq_factor_work *f = F;
+	if (f && f->rperm && !Fvalid && Fsing)
+	{
+		/* singular stop: no iteration data was built; the permutations and the stage counters are what handle_singularity read */
+		printf ("FDUMP sing %d stage %d nstages %d dense_base %d\n", n, f->stage, f->nstages, f->dense_base);
+		fputs ("RPERM", stdout); for (i = 0; i < n; i++) printf (" %d", f->rperm[i]); putchar ('\n');
+		fputs ("CPERM", stdout); for (i = 0; i < n; i++) printf (" %d", f->cperm[i]); putchar ('\n');
+		printf ("FDUMPEND\n");
+		return;
+	}
 	if (!f || !f->rperm || !Fvalid) { printf ("FDUMP none\n"); return; }
 	printf ("FDUMP %d stage %d nstages %d etacnt %d dense_base %d drows %d dcols %d\n", n, f->stage, f->nstages, f->etacnt,
 					f->dense_base, f->drows, f->dcols);
@@ -206,8 +220,9 @@ static void f_dump (void)
 	fputs ("CPERM", stdout); for (i = 0; i < n; i++) printf (" %d", f->cperm[i]); putchar ('\n');
 	fputs ("RRANK", stdout); for (i = 0; i < n; i++) printf (" %d", f->rrank[i]); putchar ('\n');
 	fputs ("CRANK", stdout); for (i = 0; i < n; i++) printf (" %d", f->crank[i]); putchar ('\n');
-	/* L etas in column form: for each stage, column c: list of (row, coef) */
-	for (i = 0; i < f->nstages; i++)
+	/* L etas in column form, all dim of them as ILLfactor_ftranl walks them (the ranks >= nstages belong to row singletons and
+	   are empty): for each stage, column c: list of (row, coef) */
+	for (i = 0; i < n; i++)
 	{
 		mpq_lc_info *lc = f->lc_inf + i;
 		printf ("LC %d %d", lc->c, lc->nzcnt);
@@ -317,6 +332,9 @@ int main (int argc, char **argv)
 			if (op[0] == 'F') mpq_ILLfactor_ftran (F, &a, &x);
 			else mpq_ILLfactor_btran (F, &a, &x);
 			print_dense (op, &x, FN);
+			/* the order in which the result is listed = the order in which the last phase (ftranu / ftranu3, btranl2 / btranl3) handled
+			   the entries with a non-zero value */
+			{ int k; printf ("XORD %d", x.nzcnt); for (k = 0; k < x.nzcnt; k++) printf (" %d", x.indx[k]); putchar ('\n'); }
 			mpq_ILLsvector_free (&a); mpq_ILLsvector_free (&x);
 		}
 		else if (!strcmp (op, "FUPD"))
